@@ -333,6 +333,7 @@ def main():
             'checker_cmd': f"tools/build.sh {' '.join(prop.COQ_TARGETS)}  (coq_makefile + make, coqc 8.16.1, full .vo) then coqc {' '.join(t[:-1] for t in prop.COQ_TARGETS if t.startswith('props/'))} for Print Assumptions",
             'trusted_base': ['Coq 8.16.1 kernel (vm_compute used in Examples/finite tables; no native_compute)']
                             + ['axiom (stdlib): ' + x for x in br['assumptions']]
+                            + (['coqchk -o (axioms of the whole loaded closure, incl. libraries only imported): ' + ', '.join(coqchk['axioms'])] if coqchk and coqchk.get('axioms') else [])
                             + list(getattr(prop, 'TRUSTED', [])),
             'theorems': br['theorems'],
             'proof_files': br['cone'],
